@@ -26,6 +26,7 @@ def run(repo, report, tier):
                 "per-step counters are added once per chunk (double counting) or never")
     report.guard("C04.R1", "steps", r1_accounting, repo, report)
     report.guard("C04.R2", "Statistics._collect_step", r2_collect, repo, report)
+    report.guard("C04.R2", "collector accumulation", r2_accumulates, repo, report)
     report.guard("C04.R3", "report.FILTERS", r3_names, repo, report)
     report.guard("C04.R5", "process_reads", r5_loops, repo, report)
     report.guard("C04.R6", "runners", r6_collect, repo, report)
@@ -344,3 +345,16 @@ def r6_collect(repo, report):
     ps = params(cfn)
     ok = stores.get("self.n") == ps[1] and sub.get("self.total_bp[0]") == ps[2] and sub.get("self.total_bp[1]") == ps[3]
     report.ob("C04.R6", "Statistics.collect totals", ok, facts={"self.n": stores.get("self.n"), **sub}, expected="n, total_bp[0], total_bp[1] taken from the arguments in order", loc=repo.loc(cfn))
+
+
+def r2_accumulates(repo, report):
+    """what several modifiers count into one reported number must be added up by the collector (same construct as C20.R3)"""
+    from ..core import Report
+    from . import c20
+
+    tmp = Report("C04", report.tier)
+    c20.r3_collect(repo, tmp)
+    hit = [o for o in tmp.obligations if o.construct == "tallies fed by several modifiers are accumulated"]
+    for o in hit:
+        report.ob("C04.R2", "Statistics._collect_modifier: " + o.construct, None if o.state == "UNRECOGNISED" else o.state == "DISCHARGED", facts=o.facts, expected=o.expected, loc=o.loc, why=o.why)
+    report.floor("C04.R2", "collector accumulation obligations", len(hit), 1)
